@@ -26,5 +26,12 @@ PackingAgrees == phase # "choose" => CircuitBits(fields) = BitsOfBytes(bytes)
 Widths == phase # "choose" => Len(bytes) = (IF c.mode = "insertion" THEN 68 + 32 * Len(c.ids) ELSE 64 + 4 * Len(c.idxs))
 \* and recomposes the digest to the same number
 HashAgrees == phase = "hashed" => hash = CircuitHash(fields)
-Export == phase = "hashed" => PrintT("TRACE " \o ToJson([c |-> c, hash |-> hash, nbytes |-> Len(bytes)]))
+\* every value enters the packing in its unique reduced form: a field holding v + k*r (or an index >= 2^32) is NOT an acceptable encoding
+AllFieldsOk == \A k \in 1..Len(fields) : FieldOk(fields[k])
+\* the packing is injective (fixed widths): different field vectors give different byte strings, hence (Keccak collision-free)
+\* different public inputs
+BytesInjective == phase = "packed" => \A d \in Cases :
+     LET fd == IF d.mode = "insertion" THEN InsFields(d.start, d.pre, d.post, d.ids) ELSE DelFields(d.idxs, d.pre, d.post)
+     IN (d.mode = c.mode /\ fd # fields) => OnChainBytes(fd) # bytes
+Export == phase = "hashed" => PrintT("TRACE " \o ToJson([c |-> c, hash |-> hash, nbytes |-> Len(bytes), ok |-> AllFieldsOk]))
 ====
